@@ -27,7 +27,7 @@ def run(ctx):
                 cc, ops = fs_drv.make_job(jr, ctx.seed * 1301 + i, nfiles=(2, 3), many_calls=i % 2 == 1,
                                           mode="gapped" if i % 2 == 1 else None)
             jobs.append(dict(config=cc.describe(), calls=ops))
-            base = fs_drv.faulted(env, drf, cc, ops, "nofault%d" % i, -1, 0, False)
+            base = fs_drv.faulted(fc.env_for(env, i), drf, cc, ops, "nofault%d" % i, -1, 0, False)
             scen.append(base)
             n = base["nops"]
             sched = [(k, e, st) for k in range(1, n + 1) for e in (errno.ENOSPC, errno.EIO) for st in (False, True)]
@@ -38,7 +38,7 @@ def run(ctx):
                 rng.shuffle(rest)
                 sched = must[:: 2 if (i and i % 2 == 0 and i != njobs - 1) else 1] + rest[:25]
             for k, e, st in sched:
-                scen.append(fs_drv.faulted(env, drf, cc, ops, "job%d-op%d-%s-%s" % (i, k, errno.errorcode[e], "sticky" if st else "once"), k, e, st))
+                scen.append(fs_drv.faulted(fc.env_for(env, i), drf, cc, ops, "job%d-op%d-%s-%s" % (i, k, errno.errorcode[e], "sticky" if st else "once"), k, e, st))
     fc.account(ctx, scen, "every single-fault schedule of a recording: operation number k (open/create, write, truncate, close, rename, "
                "mkdir, unlink) fails with ENOSPC or EIO, once or persistently for that kind of operation from then on; logged: every "
                "operation with its real or injected result, the API call results, exit status, final snapshot (raw h5py), fresh reader")
